@@ -7,9 +7,13 @@ PID = 'C04'
 MONITORS = tuple('C04'.split(','))
 
 
+# quick: reordered job_started reports yes, job-private path and staging-cleaner window no (C01 / C07 / C06 have them)
+OPTS = {'quick': {'late_started': True, 'sweep_windows': False}, 'thorough': {'job_private': True}}
+
+
 def check(tier, seed, procs):
     depth = 5 if tier == 'quick' else 8
-    res = bf.run(MONITORS, base.setups(tier), tier, depth, procs, time_budget=55 if tier == 'quick' else 1500)
+    res = bf.run(MONITORS, base.setups(tier), tier, depth, procs, opts=OPTS[tier], time_budget=55 if tier == 'quick' else 1500)
     cov = bf.coverage(res, f'1 batch, update 1 committed (2-3 jobs, 1-2 nested groups), update 2 submitted step by step '
                            f'(1-2 jobs, 0-1 groups, 1-2 bunches; one setup: batch already complete + group-only update), 2 pool instances, depth {depth}; monitors {MONITORS}')
     return {'coverage': cov, 'violations': res.violations, 'assumptions': bf.ASSUME,
@@ -19,5 +23,5 @@ def check(tier, seed, procs):
 def replay(obj):
     from vf import dbmc
 
-    v = dbmc.replay_history(bf.Family, (sorted(MONITORS), base.setups('thorough'), 'thorough', None), obj['history'])
+    v = dbmc.replay_history(bf.Family, (sorted(MONITORS), base.setups('thorough'), 'thorough', OPTS['thorough']), obj['history'])
     return (not v), (v[0][1] if v else 'no violation')
